@@ -1255,12 +1255,22 @@ class Interp:
         if name == "isinstance" and len(args) == 2:
             return BoolF(self.mk_atom(f"isinstance({show_term(term_of(args[0]))}, {show_term(term_of(args[1]))})", kind="isinstance", node=node))
         if name == "getattr" and len(args) >= 2 and isinstance(args[1], (Const, Alt)):
-            return self._by_name(args[1], lambda n: self.getattr(args[0], n, node, fr))
+            def get(n: str) -> Val:
+                o = args[0]
+                if len(args) > 2 and isinstance(o, Inst) and n not in o.fields and self.repo.lookup_method(o.cls, n) is None and not any(n in c.class_attrs for c in self.repo.mro(o.cls)):
+                    if not o.constructing:
+                        o.entry_reads.add(n)
+                    return args[2]
+                return self.getattr(o, n, node, fr)
+
+            return self._by_name(args[1], get)
         if name == "setattr" and len(args) == 3 and isinstance(args[1], (Const, Alt)):
             self._by_name(args[1], lambda n: (self.set_field(args[0], n, args[2], node, fr), Const(None))[1])
             return Const(None)
         if name == "hasattr" and len(args) == 2:
             if isinstance(args[0], Inst) and isinstance(args[1], Const):
+                if not args[0].constructing and args[0].written_at.get(str(args[1].value), "init") == "init":
+                    args[0].entry_reads.add(str(args[1].value))
                 return Const(args[1].value in args[0].fields or self.repo.lookup_method(args[0].cls, str(args[1].value)) is not None)
             return BoolF(self.mk_atom(f"hasattr({show_term(term_of(args[0]))}, {show_term(term_of(args[1]))})", kind="hasattr", node=node))
         if name == "cast" and len(args) == 2:
